@@ -419,6 +419,47 @@ Fixpoint run (h : handler) (ops : list op) : handler * list res :=
     end
   end.
 
+(** * connection.go: the receive glue in front of the handler *)
+
+(** One decrypted packet as the connection sees it: encryption level, number, ECN marking, receive
+    time and the kinds of its frames (0 PING, 1 STREAM, 2 PADDING, 3 MAX_DATA). *)
+Record pkt := mkPkt { kLvl : Z; kPn : Z; kEcn : Z; kTime : Z; kFrames : list Z }.
+
+(** [handleFrames]: ack-eliciting iff some frame is neither ACK nor PADDING nor CONNECTION_CLOSE
+    (ackhandler.IsFrameTypeAckEliciting); of the generated kinds only PADDING is not. *)
+Definition frame_ack_eliciting (k : Z) : bool := negb (k =? 2).
+
+Record gconn := mkG { gH : handler; gServer : bool; gInitDropped : bool }.
+
+Inductive gout :=
+| GProcessed (r : res)   (* frames handled, then ReceivedPacket returned r *)
+| GDropDup               (* IsPotentiallyDuplicate: dropped before any frame is looked at *)
+| GDrop0RTT              (* a client drops 0-RTT packets before unpacking *)
+| GPanic.
+
+(** [handleShortHeaderPacket] / [handleLongHeaderPacket] after the unpacker:
+    duplicate check, (server, first Handshake packet) drop of the Initial space, frames,
+    [ReceivedPacket(pn, ecn, level, rcvTime, isAckEliciting)]. *)
+Definition conn_packet (g : gconn) (p : pkt) : gconn * gout :=
+  if negb (gServer g) && (kLvl p =? rph_Enc0RTT) then (g, GDrop0RTT)
+  else
+    match h_is_dup (gH g) (kPn p) (kLvl p) with
+    | RB true => (g, GDropDup)
+    | RB false =>
+      let dropInit := gServer g && (kLvl p =? rph_EncHandshake) && negb (gInitDropped g) in
+      let h1 := if dropInit then fst (h_drop (gH g) rph_EncInitial) else gH g in
+      let ae := existsb frame_ack_eliciting (kFrames p) in
+      let (h2, r) := h_recv h1 (kPn p) (kEcn p) (kLvl p) (kTime p) ae in
+      (mkG h2 (gServer g) (gInitDropped g || dropInit), GProcessed r)
+    | _ => (g, GPanic)
+    end.
+
+Fixpoint conn_run (g : gconn) (ps : list pkt) : gconn * list gout :=
+  match ps with
+  | [] => (g, [])
+  | p :: rest => let (g', o) := conn_packet g p in let (g'', os) := conn_run g' rest in (g'', o :: os)
+  end.
+
 (** * The history alone, as driven by the harness *)
 
 Inductive hop := HRecv (p : Z) | HDel (p : Z) | HDup (p : Z) | HMiss (p : Z).
